@@ -240,4 +240,20 @@ def dictVal (l : List (Val × Val)) : Val := .lst (l.map fun p => .tup [p.1, p.2
 def set (s : Nat) (fuel : Nat) : M Val := do pure (setVal (← setLoop s [] fuel))
 def dict (s : Nat) (fuel : Nat) : M Val := do pure (dictVal (← dictLoop s [] fuel))
 
+/-! ## `dict(iterable, **kwargs)` -/
+
+/-- `base_dict.update(kwargs)`: `base_dict[k] = v` for every keyword, in keyword order.  (Python keywords are
+    `str`, hence hashable; the check keeps the model total on the value domain: an unhashable key is `TypeError`
+    as for every other `d[k] = v`) -/
+def dictUpdateKw : List (Val × Val) → List (Val × Val) → M (List (Val × Val))
+  | acc, [] => pure acc
+  | acc, (k, v) :: rest => if hashable k then dictUpdateKw (dictInsert acc k v) rest else raise .typeError
+
+/-- CPython `dict(iterable, **kwargs)` (`dict_update_common`): the pairs of the iterable are merged first, then
+    the keywords (in keyword order) -/
+def dictKw (kw : List (Val × Val)) (s : Nat) (fuel : Nat) : M Val := do
+  let base ← dictLoop s [] fuel
+  let base ← dictUpdateKw base kw
+  pure (dictVal base)
+
 end AsyncVerif.Std
